@@ -94,6 +94,85 @@ func (a *idxAnalyzer) entryZone() *zone {
 	return z
 }
 
+// summariseDeltas computes, for every cursor field the method only increases, the least
+// advance over all exits, unconditionally and under "field < len(text)" at entry.
+func (a *idxAnalyzer) summariseDeltas(fn *types.Func, fd *ast.FuncDecl) {
+	if a.curRecvT == nil || len(a.mono[fn]) == 0 {
+		return
+	}
+	res := map[string]fieldDelta{}
+	fields := []string{}
+	for f := range a.mono[fn] {
+		fields = append(fields, f)
+	}
+	sort.Strings(fields)
+	for _, f := range fields {
+		fk := a.curRecv + "." + f
+		old := "old#" + f
+		minAdvance := func(extra func(z *zone), onlyOK bool) (int, bool) {
+			save, saveSites, saveCalls, saveProg := a.retStates, a.sites, a.callObls, a.progress
+			a.retStates, a.progress = nil, map[ast.Node]*progSite{}
+			z := a.entryZone()
+			z.add(old, fk, 0)
+			z.add(fk, old, 0)
+			if extra != nil {
+				extra(z)
+			}
+			var exits []*zone
+			a.exitHook = func(e *zone, rs *ast.ReturnStmt) {
+				if onlyOK && rs != nil && len(rs.Results) > 0 {
+					if id, ok := ast.Unparen(rs.Results[len(rs.Results)-1]).(*ast.Ident); ok && id.Name == "false" {
+						return
+					}
+				}
+				exits = append(exits, e.clone())
+			}
+			a.walkBody(fd.Body, z)
+			a.exitHook = nil
+			a.retStates, a.sites, a.callObls, a.progress = save, saveSites, saveCalls, saveProg
+			if len(exits) == 0 {
+				return 0, false
+			}
+			best := 1 << 20
+			for _, e := range exits {
+				e.close()
+				w, ok := e.e[[2]string{old, fk}]
+				if !ok {
+					return 0, false
+				}
+				if -w < best {
+					best = -w
+				}
+			}
+			return best, true
+		}
+		d := fieldDelta{}
+		d.uncond, d.hasU = minAdvance(nil, false)
+		if sig := fn.Type().(*types.Signature); sig.Results().Len() >= 2 {
+			if b, ok := sig.Results().At(sig.Results().Len() - 1).Type().Underlying().(*types.Basic); ok && b.Kind() == types.Bool {
+				for _, p := range a.inv[a.curRecvT] {
+					if p.f == f && !a.invBad[a.curRecvT.Obj().Name()+"."+p.f+"<="+p.s] {
+						if c, ok := minAdvance(func(z *zone) {}, true); ok && c > d.okD {
+							d.okD, d.hasOK = c, true
+						}
+					}
+				}
+			}
+		}
+		for _, p := range a.inv[a.curRecvT] {
+			if p.f != f || a.invBad[a.curRecvT.Obj().Name()+"."+p.f+"<="+p.s] {
+				continue
+			}
+			c, ok := minAdvance(func(z *zone) { z.add(fk, "len("+a.curRecv+"."+p.s+")", -1) }, false)
+			if ok && (!d.hasC || c > d.cond) {
+				d.cond, d.hasC, d.condSeq = c, true, p.s
+			}
+		}
+		res[f] = d
+	}
+	a.delta[fn] = res
+}
+
 func (a *idxAnalyzer) assumeInv(z *zone) {
 	if a.curRecvT == nil {
 		return
@@ -166,7 +245,23 @@ func (a *idxAnalyzer) sameRecvCall(z *zone, call *ast.CallExpr) bool {
 		sort.Strings(fs)
 		for _, f := range fs {
 			if a.mono[callee][f] {
-				z.grow(rk+"."+f, 0)
+				if d, ok := a.delta[callee][f]; ok && d.hasOK && d.okD > 0 {
+					pre := fmt.Sprintf("pre#%d:%s", call.Pos(), f)
+					z.forget(pre)
+					z.neg[pre] = z.neg[rk+"."+f]
+					z.add(pre, rk+"."+f, 0)
+					z.add(rk+"."+f, pre, 0)
+				}
+				by := 0
+				if d, ok := a.delta[callee][f]; ok {
+					if d.hasU && d.uncond > by {
+						by = d.uncond
+					}
+					if d.hasC && d.cond > by && z.le(rk+"."+f, "len("+rk+"."+d.condSeq+")", -1) {
+						by = d.cond
+					}
+				}
+				z.grow(rk+"."+f, by)
 			} else {
 				z.forget(rk + "." + f)
 			}
@@ -670,11 +765,11 @@ func (a *idxAnalyzer) runAll(fds []*ast.FuncDecl) {
 		a.callObls = nil
 		a.final = false
 		prevBad := len(a.invBad)
-		prevRet := a.retSig()
+		prevRet := a.retSig() + fmt.Sprint(a.delta)
 		for _, fd := range fds {
 			a.analyseFunc(fd)
 		}
-		changed := len(a.invBad) != prevBad || a.retSig() != prevRet
+		changed := len(a.invBad) != prevBad || a.retSig()+fmt.Sprint(a.delta) != prevRet
 		// escalate preconditions of functions / closures with failing sites
 		failing := map[*ast.FuncDecl]bool{}
 		for _, s := range a.sites {
@@ -798,6 +893,7 @@ func (a *idxAnalyzer) runAll(fds []*ast.FuncDecl) {
 	a.sites = nil
 	a.callObls = nil
 	a.final = true
+	a.progress = map[ast.Node]*progSite{}
 	for _, fd := range fds {
 		a.analyseFunc(fd)
 	}
